@@ -293,7 +293,7 @@ func run(env *simrt.Env, sci interface{}) {
 	}))
 	env.Join(hs...)
 	if sc.Conn == "bridge" {
-		env.Sleep(10 * time.Millisecond) // let the ticker hand queued messages over
+		env.Idle(10 * time.Millisecond) // let the ticker hand queued messages over
 	} else {
 		env.Quiesce()
 	}
